@@ -153,6 +153,15 @@ func (c05) Run(c *Ctx, csAny any) Outcome {
 
 	// (a)/(e) the failure site never moves
 	if found.Site != last.Site {
+		if os.Getenv("VERIF_C05_DUMP") != "" {
+			fmt.Fprintf(os.Stderr, "==== C05 site-moved dump: %d invocations, dur %v, report %q %q\n", len(r.X.Log), r.Obs.Dur, r.Rep.Kind, r.Rep.Msg)
+			for i, inv := range r.X.Log {
+				fmt.Fprintf(os.Stderr, "  inv %d: %.150s\n", i, inv.Outcome())
+			}
+			for _, m := range r.Obs.Msgs {
+				fmt.Fprintf(os.Stderr, "  TB %s: %.200s\n", m.Kind, firstLine(m.Text))
+			}
+		}
 		out.NonTrivial = true
 		out.Viol = violf("C05:site-moved", "the failure was found at site [%s] (%s) but the minimized test case fails at site [%s] (%s); %d sites seen during minimization",
 			found.Site, found.WinMsg, last.Site, last.WinMsg, len(sites))
